@@ -163,6 +163,26 @@ def S8():
                     ("decl", "Signal", "r3", B("-", V("a"), V("c")))], ["r1", "r2", "r3"])
 
 
+def S9():
+    """the dedicated CSE / folding corpus of C10 (repeated sub-expressions that differ in exactly one of operator,
+    operand, output type, output mode; fan-out), here against the reference instead of the unoptimised build"""
+    from checks import c10
+    for tag, body, _, _ in c10.dedicated():
+        if tag.startswith(("bundle", "ent-")):
+            continue
+        body = [gen.thaw(s) for s in body]
+        outs = [s[2] for s in body if s[0] == "decl" and s[1] == "Signal" and s[2].startswith("r")]
+        c = mk("S9", body, outs)
+        c["tag"] = tag
+        yield c
+    A, Bb = V("a"), V("b")
+    # one product projected to two types and both consumed again
+    yield mk("S9", [("decl", "Signal", "x1", ("proj", B("*", A, Bb), "signal-X")), ("decl", "Signal", "y1", ("proj", B("*", A, Bb), "signal-Y")),
+                    ("decl", "Signal", "r1", B("-", V("x1"), V("y1"))), ("decl", "Signal", "r2", B("*", V("y1"), I(2)))], ["r1", "r2"])
+    yield mk("S9", [("decl", "Signal", "x1", ("proj", B(">", A, I(2)), "signal-X")), ("decl", "Signal", "y1", ("proj", B(">", A, I(2)), "signal-Y")),
+                    ("decl", "Signal", "r1", B("+", V("x1"), V("y1"))), ("decl", "Signal", "r2", B("*", V("y1"), V("c")))], ["r1", "r2"])
+
+
 def S7():
     A, C, Ii = V("a"), V("c"), V("i")
     progs = [
@@ -220,9 +240,10 @@ class C01(core.Check):
         out += list(S6())
         out += list(S7())
         out += list(S8())
+        out += list(S9())
         if tier == "thorough":
             # everything again without optimisation
-            out += [dict(c, opts={"optimize": False}) for c in list(out) if c["family"] in ("S1", "S2", "S4", "S6", "S7", "S8")]
+            out += [dict(c, opts={"optimize": False}) for c in list(out) if c["family"] in ("S1", "S2", "S4", "S6", "S7", "S8", "S9")]
         seen = set()
         uniq = []
         for c in out:
